@@ -87,7 +87,11 @@ func c02Devs() []c02Dev {
 	add("ident", "name+names-same", func(d *ref.Doc) { d.Ifaces[0].Scalars["names"] = []string{"eth0"} })
 	add("ident", "no-name", func(d *ref.Doc) { delete(d.Ifaces[0].Scalars, "name") })
 	add("ident", "names-dup", func(d *ref.Doc) { s := d.Ifaces[0].Scalars; delete(s, "name"); s["names"] = []string{"eth0", "eth0"} })
-	add("ident", "names-3", func(d *ref.Doc) { s := d.Ifaces[0].Scalars; delete(s, "name"); s["names"] = []string{"eth0", "eth1", "eth2"} })
+	add("ident", "names-3", func(d *ref.Doc) {
+		s := d.Ifaces[0].Scalars
+		delete(s, "name")
+		s["names"] = []string{"eth0", "eth1", "eth2"}
+	})
 	add("ident", "names-dup-nonadjacent", func(d *ref.Doc) {
 		s := d.Ifaces[0].Scalars
 		delete(s, "name")
